@@ -416,6 +416,7 @@ class Orchestrator:  # thailint: ignore[srp]
 
         _verif_emit("parallel", mode="pool", workers=effective_workers, nfiles=len(file_paths))
         violations = self._execute_parallel_linting(file_paths, effective_workers)
+        self._collect_cross_file_evidence(file_paths)
         _verif_emit("finalize_begin", n=len(violations))
         violations.extend(self._finalize_rules())
         _verif_emit("finalize_end", n=len(violations))
@@ -448,6 +449,26 @@ class Orchestrator:  # thailint: ignore[srp]
             _verif_fail("future", "*", "", sys.exc_info()[1])
             logger.exception("Error extracting violations from worker future")
             return []
+
+    def _collect_cross_file_evidence(self, file_paths: list[Path]) -> None:
+        """Feed cross-file rules in this process so that finalize() sees every file.
+
+        Worker processes use their own rule instances, so the evidence that rules with a
+        finalize() step (DRY, stringly-typed) gather there never reaches the rules that are
+        finalized here. Their per-file check() results are already reported by the workers.
+        """
+        self._ensure_rules_discovered()
+        rules = [
+            rule
+            for rule in self.registry.list_all()
+            if type(rule).finalize is not BaseLintRule.finalize
+        ]
+        for file_path in file_paths:
+            if _is_hardcoded_excluded(file_path) or self.ignore_parser.is_ignored(file_path):
+                continue
+            metadata = {**self.config, "_project_root": self.project_root}
+            context = FileLintContext(file_path, detect_language(file_path), metadata=metadata)
+            self._execute_rules(rules, context)
 
     def _finalize_rules(self) -> list[Violation]:
         """Call finalize() on all rules for cross-file analysis."""
